@@ -313,6 +313,7 @@ type vLiveCard struct {
 	stopCollFaultAt int
 	stopCollCalls   int
 	stopAdapterDelay time.Duration
+	entered, release chan struct{} // when set: the first AvailableBuffer call signals entered and waits for release
 }
 
 func (k *vLiveCard) ChangeRingBuffer(int, int) error { return nil }
@@ -387,6 +388,19 @@ func (k *vLiveCard) frame(f int, pattern bool) []byte {
 	return b
 }
 func (k *vLiveCard) AvailableBuffer() ([]byte, time.Time, error) {
+	if k.entered != nil { // the first read of the sampling phase waits until the harness lets it go on
+		k.mu.Lock()
+		entered, release := k.entered, k.release
+		k.entered = nil
+		k.mu.Unlock()
+		if entered != nil {
+			close(entered)
+			select {
+			case <-release:
+			case <-time.After(5 * time.Second):
+			}
+		}
+	}
 	k.mu.Lock()
 	defer k.mu.Unlock()
 	n, pattern := 32, false
